@@ -360,6 +360,17 @@ class Routine:
                         p = strip(payload)
                         if isinstance(p, tuple) and p[0] == "call" and p[1] == "ok_or" and len(p[3]) == 2:
                             oe = opt_emptiness(p[3][0])
+                            if oe is None:
+                                # Option adapters that keep None-ness: opt.map(f).ok_or(E) is Err(E) iff opt is None
+                                o = strip(p[3][0])
+                                for _ in range(4):
+                                    if isinstance(o, tuple) and o[0] == "call" and o[1] in ("map", "cloned", "copied", "as_ref", "as_deref", "inspect") \
+                                            and o[3] and "option::Option" in o[2]:
+                                        o = strip(o[3][0])
+                                    else:
+                                        break
+                                if isinstance(o, tuple) and o[0] == "call":
+                                    oe = opt_emptiness(o) or ("ISNONE", o)
                             self.exits.append(Exit("err", b, ex[0], cls=oe or ("OTHER", p[3][0]),
                                                    err=self.norm_err("err", p[3][1], mapping)))
 
@@ -586,6 +597,88 @@ TABLE = {
     ("histogram::histograms::Histogram::<A>", "add_observation"): [("BINNOTFOUND",)],
     ("histogram::grid::GridBuilder::<B>", "from_array"): [("COLLECT-DELEGATE", "from_array")],
 }
+
+
+def _pred_value(e, q):
+    """concrete value of a closure-predicate expression for the element value q (floats, NaN-aware)"""
+    e = strip(e)
+    if not isinstance(e, tuple):
+        raise ValueError(str(e))
+    k = e[0]
+    if k == "const":
+        return e[2]
+    if k in ("param", "upvar"):
+        return q
+    if k in ("field", "downcast", "deref", "ref", "cast"):
+        return _pred_value(e[1] if k != "cast" else e[2], q)
+    if k == "unop" and e[1] == "Not":
+        return not _pred_value(e[2], q)
+    if k == "call" and e[1] in ("ge", "le", "gt", "lt", "eq", "ne") and len(e[3]) == 2:
+        a, b = _pred_value(e[3][0], q), _pred_value(e[3][1], q)
+        return {"ge": a >= b, "le": a <= b, "gt": a > b, "lt": a < b, "eq": a == b, "ne": a != b}[e[1]]
+    if k == "binop" and e[1] in ("Ge", "Le", "Gt", "Lt", "Eq", "Ne", "BitAnd", "BitOr"):
+        a, b = _pred_value(e[2], q), _pred_value(e[3], q)
+        return {"Ge": a >= b, "Le": a <= b, "Gt": a > b, "Lt": a < b, "Eq": a == b, "Ne": a != b, "BitAnd": a and b, "BitOr": a or b}[e[1]]
+    if k == "call" and e[1] in ("clone", "raw", "into", "from", "const_raw") and e[3]:
+        return _pred_value(e[3][0], q)
+    raise ValueError(fmt(e)[:60])
+
+
+def find_form_qrange(prog, x, qs_param):
+    """`if let Some(&q) = qs.iter().find(|q| !(0 ≤ q ≤ 1)) { return Err(InvalidQuantile(q)) }`:
+    (ok, detail) or None if the exit is not of this form"""
+    from .paths import enumerate_paths
+    c = x.cls
+    if not c or c[0] not in ("MATCH", "ISNONE"):
+        return None
+    f = strip(c[1])
+    if not (isinstance(f, tuple) and f[0] == "call" and f[1] == "find" and len(f[3]) == 2):
+        return None
+    rb, re_, chain, bad = producer_chain(prog, x.body, f[3][0])
+    if bad is not None or not is_p(re_, qs_param) or any(ch in ("rev", "skip", "step_by", "take") for ch in chain):
+        return False, "the request list is not searched in request order (%s via %s)" % (fmt(re_), chain)
+    cl = strip(f[3][1])
+    if not (isinstance(cl, tuple) and cl[0] == "agg" and cl[1] == "closure"):
+        return False, "the search predicate is not a closure"
+    cb = prog.bodies.get(cl[2])
+    if cb is None:
+        return False, "closure body not found"
+    tb = prog.tracked(cb)
+    try:
+        paths = enumerate_paths(tb)
+    except Exception as ex:
+        return False, "predicate with a loop: %s" % ex
+    nan = float("nan")
+    for q in (-1.0, -1e-9, -0.0, 0.0, 1e-9, 0.5, 1.0, 1.0000001, 2.0, float("inf"), float("-inf"), nan):
+        want = not (q >= 0.0 and q <= 1.0)
+        got = None
+        try:
+            for pi in paths:
+                ok = True
+                for (bb, de, v) in pi[0]:
+                    val = int(bool(_pred_value(de, q)))
+                    if isinstance(v, tuple) and v[0] == "not":
+                        ok = ok and val not in v[1]
+                    else:
+                        ok = ok and val == v
+                if ok:
+                    from .paths import resolve_phi
+                    got = bool(_pred_value(resolve_phi(tb, tb.def_expr(0, pi[1]), pi.blocks), q))
+                    break
+        except ValueError as ex:
+            return False, "predicate not evaluable: %s" % ex
+        if got is None or got != want:
+            return False, "the search predicate answers %s for q = %r, expected %s (invalid iff not 0 ≤ q ≤ 1)" % (got, q, want)
+    a3, v3, f3 = err_variant(x.err)
+    payload_ok = False
+    if v3 == "InvalidQuantile" and f3:
+        pl = strip(f3[0])
+        while isinstance(pl, tuple) and pl[0] in ("field", "downcast", "deref"):
+            pl = strip(pl[1])
+        payload_ok = pl == f
+    if not payload_ok:
+        return False, "the error does not carry the element found by the search: `%s`" % fmt(x.err)
+    return True, ""
 
 
 def err_variant(e):
@@ -834,6 +927,15 @@ def rule_r6(ctx, prog, rule="R6", only=None):
                     got[seq[p2].cls[0]] = seq[p2]
                     p2 += 1
                 if set(got) != {"QLOW", "QHIGH"}:
+                    ff = find_form_qrange(prog, x, sp[1]) if sp[2] == "each" else None
+                    if ff is not None:
+                        okq, det = ff
+                        ob(i, "QRANGE", okq, "QRANGE/" + det if not okq else "QRANGE/", "first element of the request list, in request order, that fails "
+                           "0 ≤ q ≤ 1 (predicate evaluated on a complete sign/boundary domain) is reported" if okq else det, x)
+                        if okq:
+                            matched_positions[exits.index(x)] = "QRANGE"
+                        pos += 1
+                        continue
                     ob(i, "QRANGE", False, cls_text(x), "expected the q ∈ [0,1] validation (both bounds) first, found %s"
                        % [cls_text(y) for y in seq[pos:pos + 2]], x)
                     pos = max(p2, pos + 1)
